@@ -145,8 +145,37 @@ class C01:
         limit = C01.budgets[tier]["crash_limit"]
         for k in engine.choose_crash_points(info["events"], info.get("startup_io", 0), rng, limit):
             yield engine.crash_variant(plan, li, k)
-        # crash right after a torn WAL append (short write then exit): last WAL write of the lifetime
-        # and kill-idle after every step are covered by 'kill' ends of the base histories
+        # crash at in-memory step boundaries of a flush (equivalent durable state to the neighbouring I/O events, but
+        # reached through the gate, i.e. also between publication in the live list and the passive-buffer release)
+        gates = ["flush.written", "flush.verified", "flush.published", "flush.released", "flush.pruned", "flush.done"]
+        nfl = (info.get("gates") or {}).get("flush.start", 0)
+        for g in rng.sample(gates, 2 if tier == "quick" else len(gates)):
+            for nth in ([1] if tier == "quick" else range(1, min(nfl, 4) + 1)):
+                if nfl >= nth:
+                    p = copy.deepcopy(plan)
+                    p.pop("id", None)
+                    p["lifetimes"][li]["holds"] = [{"id": "crashgate", "gate": g, "key": "", "nth": nth, "crash": True}]
+                    p["variant"] = {"crash_at_gate": g, "nth": nth}
+                    yield p
+        # torn WAL append: the n-th append writes only its first bytes, then the process dies (with an unbuffered
+        # WAL the line and its newline are two writes, so the next lifetime appends to a torn line)
+        wal_writes = [k for k, op, pc in info["events"] if op == "write" and pc == "wal-log"]
+        for nth in rng.sample(range(1, len(wal_writes) + 1), min(len(wal_writes), 2 if tier == "quick" else 12)):
+            p = copy.deepcopy(plan)
+            p.pop("id", None)
+            p["lifetimes"][li]["io_faults"] = [{"id": "torn-wal", "op": "write", "path": "wal/shard-*/wal-*.log", "nth": nth,
+                                                 "short": rng.choice([0, 1, 17, 60]), "then_crash": True}]
+            p["variant"] = {"torn_wal_append": nth}
+            yield p
+        # a second crash during the recovery that follows a crash (restart lifetime killed at one of its first I/O events)
+        if li + 1 < len(plan["lifetimes"]):
+            for k in rng.sample(range(1, 30), 2 if tier == "quick" else 10):
+                p = engine.crash_variant(plan, li, rng.choice([e[0] for e in info["events"]]))
+                nxt = copy.deepcopy(p["lifetimes"][li + 1])
+                nxt["steps"] = []
+                nxt["end"] = {"crash_before_io": k}
+                p["lifetimes"].insert(li + 1, nxt)
+                yield p
 
 
 # ====================================================================== shared scripts
@@ -387,7 +416,16 @@ class C05(Base):
             h.life(end=rng.choice(["shutdown", "kill"]))
             rounds = rng.randrange(1, 4)
             for r_ in range(rounds):
-                h.compact()
+                if rng.random() < 0.35:
+                    # park the compactor inside the hand-over and read in that intermediate state
+                    g = rng.choice(["compact.output_written", "compact.before_commit", "compact.index_saved", "compact.list_updated", "compact.before_reclaim"])
+                    hid = h.hold_next(g)
+                    h.compact()
+                    h.read_all(tag=f"round{r_}:{g}")
+                    h.release(hid)
+                    h.barrier()
+                else:
+                    h.compact()
                 h.read_all(tag=f"round{r_}")
                 if rng.random() < 0.3:
                     k = h.new_k()
